@@ -223,6 +223,11 @@ class VC:
         if True:
             if ob.kind == "cover":
                 return solve.z3_sat(ob.hyps, ob.goal, self.z3_timeout_ms)
+            if ob.kind == "lemma":
+                # algebraic identities: the polynomial normaliser first (z3's nonlinear arithmetic needs its whole budget on them)
+                r0 = solve.ring_check(ob.hyps, ob.goal)
+                if r0.status == solve.PROVED:
+                    return r0
             r = solve.z3_check(ob.hyps, ob.goal, self.z3_timeout_ms, ob.watch)
             if r.status == solve.UNKNOWN:
                 r2 = solve.ring_check(ob.hyps, ob.goal)
